@@ -492,7 +492,66 @@ def extract_numtypes():
     out += "\nend Goml.Gen.NumTypes\n"
     write_if_changed("NumTypes.lean", out)
 
-EXTRACTORS += [extract_opmap, extract_tostring, extract_numtypes]
+# ---------------------------------------------------------------- C10: how float literals are spelled in the Go text
+def extract_floatprint():
+    """go_pprint.rs `go_float_literal`: which Rust formatting produces the text of a float32 / float64 literal
+    (Go evaluates an all-literal operator on the printed TEXTS, exactly), and go/compile.rs: the f32 is widened to f64"""
+    pp = src("crates/compiler/src/pprint/go_pprint.rs")
+    comp = src("crates/compiler/src/go/compile.rs")
+    norm = lambda t: re.sub(r"\s+", " ", t).strip()
+    m = re.search(r"fn go_float_literal\(([^)]*)\) -> String\s*\{", pp)
+    if not m:
+        raise Exception("go_pprint.rs: go_float_literal is gone")
+    params = [x.strip().split(":")[0].strip() for x in m.group(1).split(",") if x.strip()]
+    body = norm(block_after(pp, r"fn go_float_literal\([^)]*\) -> String\s*\{", "go_float_literal"))
+    tail = "if !value.is_finite() || text.contains(['.', 'e', 'E']) { text } else { format!(\"{}.0\", text) }"
+    if not body.endswith(tail):
+        raise Exception("go_pprint.rs: go_float_literal no longer appends `.0` to an integral spelling (the Go constant would be of integer kind)")
+    head = body[:-len(tail)].strip()
+    hm = re.fullmatch(r"let text = (.*);", head)
+    if not hm:
+        raise Exception(f"go_pprint.rs: go_float_literal: text is computed in an unknown way: {head[:120]}")
+    known = {"value.to_string()": "f64-display", "format!(\"{}\", value)": "f64-display",
+             "(value as f32).to_string()": "f32-display", "format!(\"{}\", value as f32)": "f32-display"}
+    expr = hm.group(1).strip()
+    rows = {}
+    if expr in known:
+        rows = {"TFloat32": known[expr], "TFloat64": known[expr]}
+    else:
+        mm = re.fullmatch(r"match (\w+) \{ (.*) \}", expr)
+        if not mm or mm.group(1) not in params:
+            raise Exception(f"go_pprint.rs: go_float_literal: unknown formatting `{expr[:120]}`")
+        default = None
+        for pat, e in re.findall(r"(GoType::\w+|_) => ([^,]+(?:\([^)]*\)[^,]*)*),", mm.group(2) + ","):
+            e = e.strip()
+            if e not in known:
+                raise Exception(f"go_pprint.rs: go_float_literal: unknown formatting `{e}` for {pat}")
+            if pat == "_":
+                default = known[e]
+            else:
+                rows[pat.replace("GoType::", "")] = known[e]
+        for t in ("TFloat32", "TFloat64"):
+            if t not in rows:
+                if default is None:
+                    raise Exception(f"go_pprint.rs: go_float_literal: no formatting for {t}")
+                rows[t] = default
+    # the call site passes the node's f64 (and, when the helper takes it, its Go type)
+    if not re.search(r"Expr::Float \{ value, ty(?:: _)? \} => RcDoc::text\(go_float_literal\(\*value(?:, ty)?\)\)", pp):
+        raise Exception("go_pprint.rs: Expr::Float is no longer printed through go_float_literal(*value…)")
+    g = norm(block_after(comp, r"fn go_literal_from_primitive\(value: &Prim, ty: &tast::Ty\) -> goast::Expr\s*\{", "go_literal_from_primitive"))
+    if "if let Some(v) = value.as_float32() { return goast::Expr::Float { value: v as f64, ty: tast_ty_to_go_type(ty), }; }" not in g or \
+       "if let Some(v) = value.as_float64() { return goast::Expr::Float { value: v, ty: tast_ty_to_go_type(ty), }; }" not in g:
+        raise Exception("compile.rs: go_literal_from_primitive no longer carries a float literal as its exact f64 value")
+    out = HEADER + "namespace Goml.Gen.FloatPrint\n\n"
+    out += lpairs("literalText", [(t, rows[t]) for t in ("TFloat32", "TFloat64")],
+                  "go_pprint.rs go_float_literal: (goty::GoType of the literal, Rust formatting that yields its Go text); "
+                  "f64-display = `{}` of the f64 (an f32 is widened exactly first), f32-display = `{}` of the value cast to f32")
+    out += "/-- appended when the spelling has no `.`/exponent, so that Go reads a floating-point (not integer) constant -/\n"
+    out += "def integralSuffix : String := \".0\"\n"
+    out += "\nend Goml.Gen.FloatPrint\n"
+    write_if_changed("FloatPrint.lean", out)
+
+EXTRACTORS += [extract_opmap, extract_tostring, extract_numtypes, extract_floatprint]
 # ---------------------------------------------------------------- C11: Pratt binding powers
 def _bp_fn_body(src, name):
     m = re.search(r"fn " + name + r"\(op: TokenKind\) -> ([^\{]+)\{\s*match op \{(.*?)\n    \}\n\}", src, flags=re.S)
@@ -1454,6 +1513,10 @@ def gen_dispatch():
          'matches!( key, InherentImplKey::Exact(tast::Ty::TApp { ty, .. }) if ty.constr_name().as_deref() == Some(constr) ) && impl_def.methods.contains_key(&method.0)'),
         (chk, "path form of an inherent call looks the method up under the receiver argument's type",
          'let arg_ty = arg_tast.get_ty(); if super::util::try_constr_name(&arg_ty).as_deref() == Some(resolved_type_name.as_str()) && let Some(method_ty) = type_env.lookup_inherent_method(&arg_ty, &member_ident) { receiver_ty = arg_ty; method_lookup = Some(method_ty); }'),
+        (chk, "the receiver's constructor is compared with the RESOLVED type name (`Cell` written in package Lib is `Lib::Cell`), not with the path as written",
+         'try_constr_name(&arg_ty).as_deref() == Some(resolved_type_name.as_str())'),
+        (chk, "the resolved name is what resolve_type_name returns for the written path",
+         'let (resolved_type_name, type_env) = super::util::resolve_type_name(genv, &type_name); let type_ident = tast::TastIdent(resolved_type_name.clone());'),
         (chk, "dot form of an inherent call looks the method up under the receiver's type",
          'let receiver_ty = receiver_tast.get_ty(); if let Some(method_ty) = lookup_inherent_method_for_ty( genv, &receiver_ty, &tast::TastIdent(field.to_ident_name()), ) {'),
         (nm, "parse_inherent_method_fn_name", 'let mut parts = name.split(\'#\'); if parts.next()? != "inherent" { return None; } let base = parts.next()?; let _ty = parts.next()?; let method = parts.next()?; if parts.next().is_some() { return None; } Some((base, method))'),
@@ -1534,6 +1597,39 @@ end Goml.Graph
 """)
 
 EXTRACTORS += [gen_package_ids]
+
+
+def c16_gen_local_name():
+    """C16: the two predicates behind the orphan rule and the inherent-impl locality check (typer/toplevel.rs).
+    Their bodies are asserted verbatim (modulo whitespace): ownership of `Pkg::Item` is decided by comparing the
+    package segment with the current package — not by any other test on the text of the name — and only a
+    struct / enum / generic application of one is a local nominal type."""
+    src = _norm(open(os.path.join(REPO, "crates/compiler/src/typer/toplevel.rs")).read())
+    m = re.search(r'fn is_local_name\(current_package: &str, name: &str\) -> bool \{ '
+                  r'if let Some\(\(package, _\)\) = name\.split_once\("::"\) \{ package == current_package \} '
+                  r'else \{ ((?:current_package == "\w+"(?: \|\| )?)+) \} \}', src)
+    if not m:
+        raise Exception("toplevel.rs: is_local_name no longer compares the package segment of `Pkg::Item` with the current package")
+    unq = re.findall(r'current_package == "(\w+)"', m.group(1))
+    n = re.search(r'fn is_local_nominal_type\(current_package: &str, ty: &tast::Ty\) -> bool \{ match ty \{ '
+                  r'tast::Ty::TStruct \{ name \} \| tast::Ty::TEnum \{ name \} => \{ is_local_name\(current_package, name\) \} '
+                  r'tast::Ty::TApp \{ ty, \.\. \} => is_local_nominal_type\(current_package, ty\), _ => false, \} \}', src)
+    if not n:
+        raise Exception("toplevel.rs: is_local_nominal_type is no longer `struct | enum | application of one`")
+    uses = len(re.findall(r"is_local_nominal_type\(&env\.package, &for_ty\)", src))
+    if uses != 2 or "let trait_local = is_local_name(&env.package, &trait_name_str);" not in src:
+        raise Exception("toplevel.rs: the orphan rule / inherent-impl check no longer call is_local_name / is_local_nominal_type as expected")
+    items = ", ".join('"%s"' % u for u in unq)
+    write_if_changed("LocalName.lean", f"""/- GENERATED by tools/extract.py (c16_gen_local_name) from typer/toplevel.rs — do not edit -/
+namespace Goml.Vis
+/-- `is_local_name`: a qualified name `Pkg::Item` is local iff `Pkg` **equals** the current package -/
+def localByPackageSegmentEquality : Bool := true
+/-- packages whose own items carry no package prefix (an unqualified name is local to them) -/
+def unqualifiedLocalTo : List String := [{items}]
+end Goml.Vis
+""")
+
+EXTRACTORS += [c16_gen_local_name]
 
 def c08_gen_lift_consts():
     """C08: naming constants and shape anchors of lift.rs (closure env struct / field / apply function names)"""
